@@ -102,6 +102,10 @@ func inRepo(loc string) bool {
 		loc = loc[:i]
 	}
 	base := filepath.Base(loc)
+	// a plain build compiles the repository's files from where they are: /repo, or the checkout VERIF_REPO names
+	if root := strings.TrimSuffix(os.Getenv("VERIF_REPO"), "/"); root != "" && root != "/repo" && strings.HasPrefix(loc, root+"/") {
+		loc = "/repo/" + strings.TrimPrefix(loc, root+"/")
+	}
 	switch {
 	case strings.Contains(loc, "/.work/") && strings.Contains(loc, "/rw/"):
 		return !strings.HasPrefix(base, "golang_set__")
@@ -135,3 +139,7 @@ func raceViolations() []Violation {
 	}
 	return out
 }
+
+// InRepo / CleanFunc: exported for harness parts that read a race log of their own (free-running companions).
+func InRepo(file string) bool    { return inRepo(file) }
+func CleanFunc(fn string) string { return cleanFunc(fn) }
